@@ -54,11 +54,12 @@ var (
 	// lock, a sync.Once or an atomic operation (one level, by name).
 	syncFuncs = map[string]bool{}
 	// mapRanges: "file:offset of for" of range statements over maps
-	mapRanges   = map[string]bool{}
-	mapRewrites int
-	blockWraps  int // statements bracketed as possibly blocking (channel ops, Cond/WaitGroup)
-	goRewrites  int
-	goStmts     int // go statements in the tree under test (their goroutines are not scheduled by the simulator)
+	mapRanges    = map[string]bool{}
+	mapRewrites  int
+	recvRewrites int // receive expressions wrapped
+	blockWraps   int // statements bracketed as possibly blocking (channel ops, Cond/WaitGroup)
+	goRewrites   int
+	goStmts      int // go statements in the tree under test (their goroutines are not scheduled by the simulator)
 )
 
 func main() {
@@ -291,6 +292,54 @@ func main() {
 			ins = append(ins, insertion{off: b, text: "\x00" + fmt.Sprint(e-b) + "\x00" + hdr, ord: 1 << 30})
 			return true
 		})
+		// receive expressions outside select communications become calls of a
+		// generic helper that brackets just the receive: `<-ch` -> verifRecv(ch),
+		// `v, ok := <-ch` -> `v, ok := verifRecv2(ch)`
+		{
+			skip := map[ast.Node]bool{}
+			two := map[ast.Node]bool{}
+			ast.Inspect(f, func(n ast.Node) bool {
+				switch x := n.(type) {
+				case *ast.CommClause:
+					if x.Comm != nil {
+						skip[x.Comm] = true
+					}
+				case *ast.AssignStmt:
+					if len(x.Lhs) == 2 && len(x.Rhs) == 1 {
+						if u, ok := x.Rhs[0].(*ast.UnaryExpr); ok && u.Op == token.ARROW {
+							two[u] = true
+						}
+					}
+				case *ast.ValueSpec:
+					if len(x.Names) == 2 && len(x.Values) == 1 {
+						if u, ok := x.Values[0].(*ast.UnaryExpr); ok && u.Op == token.ARROW {
+							two[u] = true
+						}
+					}
+				}
+				return true
+			})
+			ast.Inspect(f, func(n ast.Node) bool {
+				if n == nil {
+					return true
+				}
+				if skip[n] {
+					return false
+				}
+				u, ok := n.(*ast.UnaryExpr)
+				if !ok || u.Op != token.ARROW {
+					return true
+				}
+				name := "verifRecv("
+				if two[u] {
+					name = "verifRecv2("
+				}
+				ins = append(ins, insertion{off: fset.Position(u.OpPos).Offset, text: "\x002\x00" + name, ord: 1 << 29})
+				ins = append(ins, insertion{off: fset.Position(u.X.End()).Offset, text: ")", ord: -(1 << 29)})
+				recvRewrites++
+				return true
+			})
+		}
 		// go statements become child tasks of the simulator. The function value
 		// and the arguments are evaluated by the parent at the go statement, as
 		// the language says: `go func(p T){B}(a)` becomes
@@ -529,10 +578,6 @@ func blockingSimple(st ast.Stmt) bool {
 		case *ast.FuncLit:
 			simple = false
 			return false
-		case *ast.UnaryExpr:
-			if n.Op == token.ARROW {
-				found = true
-			}
 		case *ast.CallExpr:
 			switch f := n.Fun.(type) {
 			case *ast.Ident:
@@ -837,6 +882,22 @@ func verifGo(fn func()) {
 		return
 	}
 	go fn()
+}
+
+// verifRecv / verifRecv2 are receive expressions of the tree under test: the
+// task may park in the Go runtime here, and only here.
+func verifRecv[T any](ch <-chan T) T {
+	tok := verifBkEnter()
+	v := <-ch
+	verifBkLeave(tok)
+	return v
+}
+
+func verifRecv2[T any](ch <-chan T) (T, bool) {
+	tok := verifBkEnter()
+	v, ok := <-ch
+	verifBkLeave(tok)
+	return v, ok
 }
 
 // verifGoCall is the go statement with a callee that is not a function literal:
